@@ -84,7 +84,26 @@ FEATURES = {"pow_base_pow": has_pow_base_pow, "if_in_call_arg": has_if_in_call_a
 
 # ---------------------------------------------------------------- oracle
 
+def _has_multi_kw(t):
+    if t[0] == "call" and len(t) > 3 and len(t[3]) >= 2:
+        return True
+    return any(_has_multi_kw(c) for c in T.children(t))
+
+
 def check_expr(tree):
+    """Keyword arguments are written in name order and, when a call has several, in reverse name order too."""
+    for rev in ((False, True) if _has_multi_kw(tree) else (False,)):
+        T.set_kw_order(rev)
+        try:
+            m = _check_expr(tree)
+        finally:
+            T.set_kw_order(False)
+        if m is not None:
+            return m + (" [keyword arguments in reverse name order]" if rev else "")
+    return None
+
+
+def _check_expr(tree):
     from dagrt.expression import parse
     from dagrt.utils import get_variables
     e = T.to_pymbolic(tree)
